@@ -354,3 +354,33 @@ package updown
 //@     invariant [down.nearest] forallint(s, implies(in(pushdown.catchmentMap, s), in(gDown, s)) && implies(in(gDown, s), in(pushdown.catchmentMap, s) || (len(pushdown.catchmentMap) == pushDist && s > pushdown.maxDist)))
 //@     invariant [side.nearest] forallint(s, implies(in(pushside.catchmentMap, s), in(gSide, s)) && implies(in(gSide, s), in(pushside.catchmentMap, s) || (len(pushside.catchmentMap) == pushDist && s > pushside.maxDist)))
 //@   ensures len(sent(cOut)) == 1 && sent(cOut)[0].qname == q.id && sent(cOut)[0].qidx == q.idx
+
+//@ # C08: target ambiguity filter and fan-out in file order (spawns mode: `go` statements skipped, the channels made
+//@ # here are a family with one ghost log each). Worker i is started on query i and channel i with the options passed
+//@ # through unchanged; every channel receives exactly the targets whose ambiguity count is within --threshold-target,
+//@ # all of them, in arrival (= file) order - and nothing else is withheld.
+//@ func splitInput spawns
+//@   modifies cErr, cSplitDone
+//@   loop 1:
+//@     invariant 0 <= i && i <= nQ && nQ == len(queries) && len(QChanArray) == nQ && freshslice(QChanArray)
+//@     invariant [chan.made] forall(k, 0, i, madechan(QChanArray[k]))
+//@     invariant [chan.distinct] forall(a, 0, i, forall(b, 0, i, implies(a != b, QChanArray[a] != QChanArray[b])))
+//@   loop 2:
+//@     invariant nQ == len(queries) && len(QChanArray) == nQ
+//@     invariant forall(k, 0, nQ, len(sent(QChanArray[k])) == 0)
+//@   before call:findUpDownCatchmentPushDistance#1: assert [worker.wiring.push] pushDistance > 0 && arg(0) == queries[i] && arg(1) == ignore && arg(2) == sizeArray && arg(3) == pushDistance && arg(4) == threshpair && arg(5) == QChanArray[i] && arg(6) == cOut
+//@   before call:findUpDownCatchment#1: assert [worker.wiring] pushDistance <= 0 && arg(0) == queries[i] && arg(1) == ignore && arg(2) == sizeArray && arg(3) == nofill && arg(4) == distArray && arg(5) == threshpair && arg(6) == QChanArray[i] && arg(7) == cOut
+//@   loop 3:
+//@     invariant nQ == len(queries) && len(QChanArray) == nQ && len(sent(cSplitDone)) == 0 && len(sent(cErr)) == 0
+//@     invariant [fanout.all] forall(k, 0, nQ, len(sent(QChanArray[k])) == count(t, 0, range_i, recv(cIn)[t].ambCount <= threshtarg))
+//@     invariant [fanout.order] forall(k, 0, nQ, forall(t, 0, range_i, implies(recv(cIn)[t].ambCount <= threshtarg, sent(QChanArray[k])[count(u, 0, t, recv(cIn)[u].ambCount <= threshtarg)] == recv(cIn)[t])))
+//@   loop 4:
+//@     invariant 0 <= i && i <= nQ && nQ == len(queries) && len(QChanArray) == nQ && len(sent(cSplitDone)) == 0 && len(sent(cErr)) == 0 && udL.ambCount <= threshtarg
+//@     invariant forall(k, 0, i, len(sent(QChanArray[k])) == count(t, 0, range_i3, recv(cIn)[t].ambCount <= threshtarg) + 1 && sent(QChanArray[k])[count(t, 0, range_i3, recv(cIn)[t].ambCount <= threshtarg)] == udL)
+//@     invariant forall(k, i, nQ, len(sent(QChanArray[k])) == count(t, 0, range_i3, recv(cIn)[t].ambCount <= threshtarg))
+//@     invariant forall(k, 0, nQ, forall(t, 0, range_i3, implies(recv(cIn)[t].ambCount <= threshtarg, sent(QChanArray[k])[count(u, 0, t, recv(cIn)[u].ambCount <= threshtarg)] == recv(cIn)[t])))
+//@   loop 5:
+//@     invariant len(sent(cSplitDone)) == 0 && len(sent(cErr)) == 0
+//@   before send#2: assert [c08.fanout.count] forall(k, 0, nQ, len(sent(QChanArray[k])) == count(t, 0, len(recv(cIn)), recv(cIn)[t].ambCount <= threshtarg))
+//@   before send#2: assert [c08.fanout.order] forall(k, 0, nQ, forall(t, 0, len(recv(cIn)), implies(recv(cIn)[t].ambCount <= threshtarg, sent(QChanArray[k])[count(u, 0, t, recv(cIn)[u].ambCount <= threshtarg)] == recv(cIn)[t])))
+//@   ensures [done.once] len(sent(cSplitDone)) == 1 && len(sent(cErr)) == 0
